@@ -16,7 +16,7 @@ inductive BindErr
   | unknownKeyword (k : String)
   | duplicate (p : String)
   | missing (p : String)
-  | defaultFailed (e : PyErr)
+  | defaultFailed (p : String) (e : PyErr)
   deriving Repr
 
 /-- binding once the structural checks have passed -/
@@ -32,7 +32,7 @@ def pyBindGo (evalD : Env S.V → String → Except PyErr S.V) (kws : List (Stri
       | some d =>
         match evalD res d with
         | .ok v => pyBindGo evalD kws ps [] (Env.set res p.name v)
-        | .error e => .error (.defaultFailed e)
+        | .error e => .error (.defaultFailed p.name e)
       | none => .error (.missing p.name)
 
 /-- Python's call rule -/
